@@ -40,6 +40,9 @@ pub enum BCall {
     Detached,
     /// fork the description: the clone keeps the state reached so far
     Clone,
+    /// not a builder call: the program changes its own environment (set / remove) between two
+    /// builder calls, or between building the command and running it
+    ParentSetenv(Vec<u8>, Option<Vec<u8>>),
 }
 
 #[derive(Serialize, Deserialize, Clone, Copy, Debug, PartialEq, Eq)]
@@ -88,7 +91,18 @@ fn gen_call(rng: &mut Rng) -> BCall {
         0 | 1 | 2 => BCall::Arg(gen_val(rng)),
         3 => BCall::Args((0..rng.below(4)).map(|_| gen_val(rng)).collect()),
         4 | 5 | 6 => BCall::Env(gen_key(rng), gen_val(rng)),
-        7 | 8 => BCall::EnvExtend((0..rng.below(4)).map(|_| (gen_key(rng), gen_val(rng))).collect()),
+        7 | 8 => BCall::EnvExtend(
+            (0..rng.below(4))
+                .map(|_| {
+                    // now and then a pair that says what the parent's environment says anyway
+                    match rng.below(6) {
+                        0 => (b"HOME".to_vec(), b"/work".to_vec()),
+                        1 => (b"LANG".to_vec(), b"C".to_vec()),
+                        _ => (gen_key(rng), gen_val(rng)),
+                    }
+                })
+                .collect(),
+        ),
         9 | 10 | 11 => BCall::EnvRemove(gen_key(rng)),
         12 => BCall::EnvClear,
         13 => BCall::Cwd(rng.pick(&[&b"/work/sub"[..], b"/", b"sub", b"/work"]).to_vec()),
@@ -124,6 +138,20 @@ pub fn generate(rng: &mut Rng, plan: &mut Plan, _index: u64) {
             b.clone_calls.push(gen_call(rng));
         }
     }
+    if rng.chance(1, 4) {
+        // the program's own environment changes while the command is being put together
+        let gen_set = |rng: &mut Rng| BCall::ParentSetenv(rng.pick(&[&b"HOME"[..], b"LANG", b"HOME", b"K1", b"k1", b"SUBSIM_LATER"]).to_vec(), if rng.chance(1, 3) { None } else { Some(gen_val(rng)) });
+        for _ in 0..1 + rng.below(2) {
+            let at = if rng.chance(1, 2) { b.calls.len() } else { rng.below(b.calls.len() as u64 + 1) as usize };
+            let c = gen_set(rng);
+            b.calls.insert(at, c);
+        }
+        if clone_at.is_some() && rng.chance(1, 2) {
+            let at = rng.below(b.clone_calls.len() as u64 + 1) as usize;
+            let c = gen_set(rng);
+            b.clone_calls.insert(at, c);
+        }
+    }
     b.term = *rng.pick(&[BTerm::Popen, BTerm::Popen, BTerm::Join, BTerm::Capture, BTerm::Capture, BTerm::Communicate, BTerm::StreamStdout, BTerm::StreamStderr, BTerm::StreamStdin]);
     plan.body = Body::Builder(b);
 }
@@ -137,6 +165,9 @@ struct Model {
     command: Vec<u8>,
     args: Vec<Vec<u8>>,
     env: Option<BTreeMap<Vec<u8>, Vec<u8>>>,
+    /// the same edits as a list (None = clear), for the other reading of "a copy of the
+    /// environment": one taken when the command is run
+    env_edits: Vec<Option<(Vec<u8>, Option<Vec<u8>>)>>,
     cwd: Option<Vec<u8>>,
     stdin: RKind,
     stdout: RKind,
@@ -147,7 +178,16 @@ struct Model {
     refused: Option<String>,
 }
 
-fn parent_env(plan: &Plan) -> BTreeMap<Vec<u8>, Vec<u8>> {
+thread_local! {
+    /// the parent's environment as of now (ParentSetenv changes it)
+    static PENV: std::cell::RefCell<BTreeMap<Vec<u8>, Vec<u8>>> = const { std::cell::RefCell::new(BTreeMap::new()) };
+}
+
+fn parent_env(_plan: &Plan) -> BTreeMap<Vec<u8>, Vec<u8>> {
+    PENV.with(|p| p.borrow().clone())
+}
+
+fn initial_parent_env(plan: &Plan) -> BTreeMap<Vec<u8>, Vec<u8>> {
     plan.parent.env.iter().map(|(k, v)| (k.as_bytes().to_vec(), v.as_bytes().to_vec())).collect()
 }
 
@@ -175,17 +215,38 @@ fn apply(m: &mut Model, c: &BCall, plan: &Plan) {
         BCall::Args(v) => m.args.extend(v.iter().cloned()),
         BCall::Env(k, v) => {
             m.env.get_or_insert_with(|| parent_env(plan)).insert(k.clone(), v.clone());
+            m.env_edits.push(Some((k.clone(), Some(v.clone()))));
         }
         BCall::EnvExtend(l) => {
             let e = m.env.get_or_insert_with(|| parent_env(plan));
             for (k, v) in l {
                 e.insert(k.clone(), v.clone());
+                m.env_edits.push(Some((k.clone(), Some(v.clone()))));
             }
         }
         BCall::EnvRemove(k) => {
             m.env.get_or_insert_with(|| parent_env(plan)).remove(k);
+            m.env_edits.push(Some((k.clone(), None)));
         }
-        BCall::EnvClear => m.env = Some(BTreeMap::new()),
+        BCall::EnvClear => {
+            m.env = Some(BTreeMap::new());
+            m.env_edits.push(None);
+        }
+        BCall::ParentSetenv(k, v) => {
+            use std::os::unix::ffi::OsStrExt;
+            let key = std::ffi::OsStr::from_bytes(k);
+            match v {
+                Some(v) => {
+                    std::env::set_var(key, std::ffi::OsStr::from_bytes(v));
+                    PENV.with(|p| p.borrow_mut().insert(k.clone(), v.clone()));
+                }
+                None => {
+                    std::env::remove_var(key);
+                    PENV.with(|p| p.borrow_mut().remove(k));
+                }
+            }
+            sim().k.probe("parent_env_changed_during_build");
+        }
         BCall::Cwd(d) => m.cwd = Some(d.clone()),
         BCall::Stdin(k) => {
             let mut cur = m.stdin;
@@ -271,7 +332,7 @@ fn do_call(e: Exec, c: &BCall) -> Exec {
         BCall::Stderr(RKind::Null) => e.stderr(NullFile),
         BCall::Stderr(k) => e.stderr(redir(*k)),
         BCall::Detached => e.detached(),
-        BCall::Clone => e,
+        BCall::Clone | BCall::ParentSetenv(..) => e,
     }
 }
 
@@ -341,7 +402,21 @@ fn judge_exec(plan: &Plan, m: &Model, spawn_idx: usize, who: &str) {
         got_env.insert(e[..pos].to_vec(), e.get(pos + 1..).unwrap_or(&[]).to_vec());
     }
     let want_env = m.env.clone().unwrap_or_else(|| parent_env(plan));
-    if got_env != want_env {
+    // the copy that the edits act on may as well be taken when the command is run: what was
+    // set or removed on the builder is the same either way, the untouched rest may differ
+    let mut want_late = parent_env(plan);
+    for e in &m.env_edits {
+        match e {
+            None => want_late.clear(),
+            Some((k, Some(v))) => {
+                want_late.insert(k.clone(), v.clone());
+            }
+            Some((k, None)) => {
+                want_late.remove(k);
+            }
+        }
+    }
+    if got_env != want_env && got_env != want_late {
         let missing: Vec<_> = want_env.keys().filter(|k| !got_env.contains_key(*k)).map(|k| String::from_utf8_lossy(k).into_owned()).collect();
         let extra: Vec<_> = got_env.keys().filter(|k| !want_env.contains_key(*k)).map(|k| String::from_utf8_lossy(k).into_owned()).collect();
         let differ: Vec<_> = want_env.iter().filter(|(k, v)| got_env.get(*k).map(|g| g != *v).unwrap_or(false)).map(|(k, _)| String::from_utf8_lossy(k).into_owned()).collect();
@@ -360,13 +435,18 @@ pub fn run(plan: &Plan, b: &BuilderPlan) -> FamOut {
     let (mut ex, mut m) = match &b.shell {
         Some(s) => (
             Exec::shell(os(s)),
-            Model { command: b"sh".to_vec(), args: vec![b"-c".to_vec(), s.clone()], env: None, cwd: None, stdin: RKind::None, stdout: RKind::None, stderr: RKind::None, has_data: false, detached: false, refused: None },
+            Model { command: b"sh".to_vec(), args: vec![b"-c".to_vec(), s.clone()], env: None, env_edits: vec![], cwd: None, stdin: RKind::None, stdout: RKind::None, stderr: RKind::None, has_data: false, detached: false, refused: None },
         ),
-        None => (Exec::cmd("tool"), Model { command: b"tool".to_vec(), args: vec![], env: None, cwd: None, stdin: RKind::None, stdout: RKind::None, stderr: RKind::None, has_data: false, detached: false, refused: None }),
+        None => (Exec::cmd("tool"), Model { command: b"tool".to_vec(), args: vec![], env: None, env_edits: vec![], cwd: None, stdin: RKind::None, stdout: RKind::None, stderr: RKind::None, has_data: false, detached: false, refused: None }),
     };
+    PENV.with(|p| *p.borrow_mut() = initial_parent_env(plan));
     let mut clone: Option<(Exec, Model)> = None;
     let mut alive = true;
     for (i, c) in b.calls.iter().enumerate() {
+        if matches!(c, BCall::ParentSetenv(..)) {
+            apply(&mut m, c, plan);
+            continue;
+        }
         if *c == BCall::Clone {
             let r = lib("Exec::clone", || ex.clone());
             match r {
@@ -429,6 +509,10 @@ pub fn run(plan: &Plan, b: &BuilderPlan) -> FamOut {
         nontrivial = true;
         let mut ok = true;
         for c in &b.clone_calls {
+            if matches!(c, BCall::ParentSetenv(..)) {
+                apply(&mut cm, c, plan);
+                continue;
+            }
             apply(&mut cm, c, plan);
             let cc = c.clone();
             match lib("Exec builder call (clone)", move || do_call(cex, &cc)) {
@@ -477,6 +561,7 @@ fn call_name(c: &BCall) -> &'static str {
         BCall::EnvExtend(_) => "env_extend",
         BCall::EnvRemove(_) => "env_remove",
         BCall::EnvClear => "env_clear",
+        BCall::ParentSetenv(..) => "(parent setenv)",
         BCall::Cwd(_) => "cwd",
         BCall::Stdin(_) => "stdin",
         BCall::Stdout(_) => "stdout",
